@@ -1016,6 +1016,18 @@ class Enumerator:
                 'builtin:' + name
         if is_builtin(prim, 'bool') or is_builtin(prim, 'len'):
             return prim.args[0]
+        # x[k:] is non-empty exactly when len(x) > k   (k >= 0)
+        if isinstance(prim, ast.Subscript) and isinstance(
+                prim.slice, ast.Slice) and prim.slice.upper is None and \
+                prim.slice.step is None and isinstance(
+                    prim.slice.lower, ast.Constant) and isinstance(
+                        prim.slice.lower.value, int) and \
+                prim.slice.lower.value >= 1:
+            return ast.Compare(
+                left=ast.Call(func=ast.Name(id='len', ctx=ast.Load()),
+                              args=[prim.value], keywords=[]),
+                ops=[ast.Gt()],
+                comparators=[ast.Constant(value=prim.slice.lower.value)])
         if isinstance(prim, ast.Compare) and len(prim.ops) == 1:
             a, b, op = prim.left, prim.comparators[0], prim.ops[0]
             name = type(op).__name__
@@ -1864,6 +1876,62 @@ class Enumerator:
                 for s, status in self._for(loop, s0, handlers):
                     s.env.pop('_lg_acc', None)
                     s.env.pop('_lg_x', None)
+                    if status[0] == 'raise':
+                        yield s, None, status
+                    else:
+                        yield s, sym, None
+                return
+        if isinstance(v, ast.Call) and not getattr(v, '_pv_hoisted', False):
+            # an argument that is itself list(gen(..)) / dict(gen(..)) over
+            # a generator function of the program is built first
+            for a in v.args:
+                if isinstance(a, ast.Call) and isinstance(
+                        a.func, ast.Name) and a.func.id in (
+                            'list', 'tuple', 'dict') and len(
+                                a.args) == 1 and not a.keywords and \
+                        isinstance(a.args[0], ast.Call) and \
+                        self._inline_target(a.args[0], gen=True) is not None:
+                    done = False
+                    for s, acc, rs in self.eval_value(a, st, handlers):
+                        done = True
+                        if rs is not None:
+                            yield s, None, rs
+                            continue
+                        v2 = _replace_node(v, a, acc)
+                        v2._pv_hoisted = True
+                        yield from self._eval_substituted(v2, s, handlers,
+                                                          value)
+                    if done:
+                        return
+                    break
+        if isinstance(v, ast.Call) and isinstance(v.func, ast.Name) and \
+                v.func.id == 'dict' and len(v.args) == 1 and \
+                not v.keywords and isinstance(v.args[0], ast.Call):
+            # dict(gen(...)) over a generator function of pairs: the loop
+            # `for k, v in gen(...): acc[k] = v` it abbreviates
+            acc = ast.Name(id='_dg_acc', ctx=ast.Load())
+            loop = ast.For(
+                target=ast.Tuple(elts=[
+                    ast.Name(id='_dg_k', ctx=ast.Store()),
+                    ast.Name(id='_dg_v', ctx=ast.Store())], ctx=ast.Store()),
+                iter=v.args[0],
+                body=[ast.Assign(targets=[ast.Subscript(
+                    value=acc, slice=ast.Name(id='_dg_k', ctx=ast.Load()),
+                    ctx=ast.Store())],
+                    value=ast.Name(id='_dg_v', ctx=ast.Load()))],
+                orelse=[])
+            for b in ast.walk(loop):
+                if isinstance(b, (ast.stmt, ast.expr)) and not hasattr(
+                        b, 'lineno'):
+                    b.lineno = b.end_lineno = getattr(value, 'lineno', 0)
+                    b.col_offset = b.end_col_offset = 0
+            if self._fusable(loop, v.args[0]) is not None:
+                sym = self.fresh(ast.Dict(keys=[], values=[]), 'm')
+                s0 = st.fork()
+                s0.env['_dg_acc'] = sym
+                for s, status in self._for(loop, s0, handlers):
+                    for nm in ('_dg_acc', '_dg_k', '_dg_v'):
+                        s.env.pop(nm, None)
                     if status[0] == 'raise':
                         yield s, None, status
                     else:
